@@ -1118,7 +1118,23 @@ class RpcServer:
                     error_message = str(exc)
                     _write_error_batch(writer, schema, exc, server_id=self._server_id)
                     return
-                _write_result_batch(writer, info.result_schema, result, self._external_config, shm=shm)
+                # A result that does not fit the method's own result schema
+                # (or whose externalisation fails) is a *server-side* failure
+                # of this call.  Unguarded, the exception escaped with nothing
+                # written, so the client was left without a response batch
+                # while the access log below recorded status="ok".  Answer
+                # with a typed error and log what the client actually saw --
+                # the HTTP unary shell already does exactly this.
+                try:
+                    _write_result_batch(writer, info.result_schema, result, self._external_config, shm=shm)
+                except (BrokenPipeError, OSError):
+                    raise
+                except Exception as exc:
+                    _hook_exc = exc
+                    status = "error"
+                    error_type = _log_method_error(protocol_name, info.name, self._server_id, exc)
+                    error_message = str(exc)
+                    _write_error_batch(writer, schema, exc, server_id=self._server_id)
         finally:
             duration_ms = (time.monotonic() - start) * 1000
             _emit_access_log(
